@@ -310,29 +310,37 @@ def parseFx (s : String) : Fixes :=
     createOverDir := ids.contains 9, syncRenameBoth := ids.contains 11, fsyncResolve := ids.contains 10,
     dataKeyResolve := ids.contains 3 }
 
-/-- the variant tried first (`--fx 1+9`; default: the code as found) -/
 def noFx : Fixes := {}
 
-initialize baseFx : IO.Ref Fixes ← IO.mkRef noFx
+/-- the variant tried first (`--fx 1+9`; default: the repairs committed in /repo) -/
+initialize baseFx : IO.Ref Fixes ← IO.mkRef Fixes.committed
+
+def fxLabel (fx : Fixes) : String := if fx == noFx then "before-repairs" else fxName fx
 
 def finishCase (prop : String) (memo : IO.Ref (Option Fixes)) (c : CaseIn) : IO (Bool × Bool) := do
   let base ← baseFx.get
   let v0 := evalCase prop c base
-  -- on a mismatch with the code-as-found model try the repaired variants (the one that matched
-  -- the previous case first)
+  -- On a mismatch with the model of the committed code try the other variants (the one that matched
+  -- the previous case first).  A variant with *more* repairs than the base is a newer tree: K ok,
+  -- `fixed:<ids>`.  If only a variant that lacks a committed repair replays, the implementation has
+  -- fallen back behind a repair: K stays a mismatch, the variant is reported as `regressed:<ids>`.
   let last ← memo.get
-  let cands : List Fixes := (match last with | some f => [f] | none => []) ++ [noFx] ++ allFixes
+  let cands : List Fixes := (match last with | some f => [f] | none => []) ++ allFixes ++ [noFx]
   let found : Option (Fixes × Verdict) :=
     if v0.kOk then none
-    else cands.findSome? fun fx => let v := evalCase prop c fx; if v.kOk then some (fx, v) else none
+    else cands.findSome? fun fx =>
+      if fx == base then none else
+      let v := evalCase prop c fx; if v.kOk then some (fx, v) else none
   if let some (fx, _) := found then memo.set (some fx)
-  let (v, variantOk) := match found with
-    | some (fx, v) => (v, if fx == noFx then "faithful" else s!"fixed:{fxName fx}")
-    | none => (v0, if base == noFx then "faithful" else s!"fixed:{fxName base}")
+  let (v, variantOk) : Verdict × String := match found with
+    | some (fx, v) =>
+      if fx.includes base then (v, s!"fixed:{fxLabel fx}")
+      else ({ v0 with kDetail := v0.kDetail ++ s!" [replays on variant {fxLabel fx}]" }, s!"regressed:{fxLabel fx}")
+    | none => (v0, "faithful")
   let pattern := v.pattern
   let line := if !v.kOk then v.kLine else if !v.oOk then v.oLine else 0
   let detail := if !v.kOk then "K: " ++ v.kDetail else if !v.oOk then "O: " ++ v.oDetail else "-"
-  let variant := if v.kOk then variantOk else "-"
+  let variant := if v.kOk then variantOk else if variantOk.startsWith "regressed" then variantOk else "-"
   let cov := if v.cov.isEmpty then "-" else ",".intercalate v.cov
   IO.println s!"CASE {c.n} K={if v.kOk then "ok" else "mismatch"} O={if v.oOk then "ok" else "fail"} variant={variant} pattern={pattern} line={line} cov={cov} detail={detail}"
   return (v.kOk, v.oOk)
@@ -444,9 +452,9 @@ def enumRun (prop : String) (len : Nat) (full : Bool) : IO Unit := do
     let mut detail := ""
     let mut pat := "none"
     for op in ops do
-      ts := monStep {} ts st sp op {}
-      let (st1, mo) := step {} st op {}
-      let (sp1, so) := sStep {} sp op {}
+      let (st1, mo) := stepFx Fixes.committed {} st op {}
+      let (sp1, so) := sStepFx Fixes.committed {} sp op {}
+      ts := (monStepOk ts st sp op (mo == .ok)).filter fun t => !(repairedIds Fixes.committed).contains t.1
       if ok then
         let badp : List Path :=
           if prop == "C10" then
